@@ -20,3 +20,7 @@ import DefconModel.Lemmas.Geom.RevArea
 import DefconModel.Lemmas.Geom.CtrlBox
 import DefconModel.Lemmas.Geom.Straight
 import DefconModel.Lemmas.Geom.RevArea2
+import DefconModel.Lemmas.Geom.Uses
+import DefconModel.Lemmas.Geom.CacheLayer
+import DefconModel.Lemmas.Geom.Composite
+import DefconModel.Lemmas.Geom.Affine
